@@ -9,3 +9,7 @@ def run(ctx):
     scens = [gl.history(rnd, "b%d" % i, steps=rnd.randint(5, 11), with_bad=True, with_construct=True, with_copy=(i % 3 == 0)) for i in range(n)]
     gl.run_grid(ctx, [("misuse", scens)], gl.OBS_NODAL, "C14")
     ctx.assume("misuse calls are issued only in states the documented throws-clauses cover; raw-pointer overloads documented as unchecked are not misused")
+
+
+def replay(ctx, path):
+    return gl.replay(ctx, path, "C14", gl.OBS_NODAL)
